@@ -94,6 +94,16 @@ Un(op, a) == CASE op = "neg" -> IntV(a.w, a.s, Neg(a.b))
 Cast(ty, a) == IF a.t = "bool" THEN IntV(ty.w, ty.s, FromNat(IF a.v THEN 1 ELSE 0, ty.w))
                ELSE IntV(ty.w, ty.s, Resize(a.b, ty.w, a.s))
 FieldPos(r, f) == PosIn(r.ns, f, Len(r.ns))
+(* a cast between aggregate types converts member by member: a struct member is taken from the
+   source member of the SAME NAME (the declaration orders may differ), array elements by position.
+   td: [k |-> "int", w, s] | [k |-> "bool"] | [k |-> "rec", ns, ts] | [k |-> "arr", t] *)
+RECURSIVE Conv(_, _)
+Conv(td, v) ==
+    CASE td.k = "int" -> Cast(td, v)
+      [] td.k = "bool" -> v
+      [] td.k = "rec" -> [t |-> "rec", ns |-> td.ns,
+                          vs |-> [j \in 1..Len(td.ns) |-> Conv(td.ts[j], v.vs[FieldPos(v, td.ns[j])])]]
+      [] td.k = "arr" -> [t |-> "arr", es |-> [j \in 1..Len(v.es) |-> Conv(td.t, v.es[j])]]
 
 (* -------------------------------------------------------------- interpreter *)
 RECURSIVE Eval(_, _, _), EvalList(_, _, _, _, _), Exec(_, _, _), ExecSeq(_, _, _, _, _),
@@ -138,6 +148,7 @@ Eval(P, e, st) ==
                              ELSE Lookup(st.env, e.n), st)
       [] e.e = "un" -> LET r == Eval(P, e.x, st) IN IF r.sig # "norm" THEN r ELSE Norm(Un(e.op, r.v), r.st)
       [] e.e = "cast" -> LET r == Eval(P, e.x, st) IN IF r.sig # "norm" THEN r ELSE Norm(Cast(TyOf(e, r.st), r.v), r.st)
+      [] e.e = "scast" -> LET r == Eval(P, e.x, st) IN IF r.sig # "norm" THEN r ELSE Norm(Conv(e.to, r.v), r.st)
       [] e.e = "bin" ->
             LET a == Eval(P, e.l, st) IN
             IF a.sig # "norm" THEN a
